@@ -143,3 +143,9 @@ REGISTRY.update({
     "C31": _mc("explicit-state enumeration of inputs x site layouts (incl. sites with nested/parallel recurrent mutations) x node ages from real dating and from the complete product of synthetic mn vectors (every ancestor/descendant inversion) x option product; re-implementation oracle; historical-sample patterns for SampleData",
                "Every bounded ARG x {one mutation per site, all mutations of a locus on one site} + above-root mutations + a monomorphic site, aged by variational_gamma / inside_outside output and by all {0.5,1,2,3}^k mn vectors (k<=4) x node_selection (4) x min_time (3) x unconstrained: site times equal the documented definition; add_sampledata_times on tsinfer SampleData with every single and pair of historical samples equals max(estimate, oldest carrier)."),
 })
+
+REGISTRY.update({
+    "C18": {"level": "exploration", "technique": "exhaustive enumeration of two finite lattices: a product lattice of cavity / likelihood parameters (support, finiteness, skip and closed-form clauses) and the de-duplicated set of (cavity, likelihood) tuples that real EP runs on the bounded inputs produce (accuracy); reference = analytic reduction to one dimension + mode-split mpmath quadrature with an error gate",
+            "text": "All 14 moment functions on 15x15 cavity pairs x 4 counts x 3 spans x 3 fixed ages: skip or finite moments with positive variance and mean inside the support, phases in [0,1], closed forms to 1e-12. Every tuple arising at the EP fixed point on the bounded ARGs x mutation menu x sample decorators x phasing (also damped by 0.9/0.5 as EP's step control does; ~10k tuples quick): returned means within 5% of the numerically integrated tilted moments (observed worst 2%).",
+            "note": "finite lattices of a continuous domain; accuracy judged only on parameter ranges EP produces; mpmath quadrature with its own error estimate < 1e-6 gates every comparison"},
+})
